@@ -45,4 +45,17 @@ example : runPos 0 0 {} [.coeff 3, .space, .coeff 4, .end_] = .error 2 :=
   error_position 0 [.coeff 3, .space] (.coeff 4) [.end_] {} { coeff := 3, last := some .coeff } 0 (by simp [run, step])
     (two_coefficients_in_a_row 0 _ rfl 4)
 
+/-- **the loop of `MultiVector.__str__`, statement for statement** (`Text.strLoop`: separator tuples chosen by `if s:`, the
+`continue` on a zero coefficient, sign / separator selection, scalar vs `(c^name)` form, `'0'` for the empty string; tied to the
+source by `TieA.printer_str_eq`) prints exactly `printToks` of the non-zero entries in storage order … -/
+theorem str_loop_is_printToks (es : List Entry) : strLoop es = printToks (printedTerms es) := Text.strLoop_eq_printToks es
+
+/-- … hence parsing what the coded loop prints returns the accumulation of the non-zero entries, for every entry list -/
+theorem parse_str_loop_roundtrip (sidx : Nat) (es : List Entry) :
+    ∃ st, run sidx {} (strLoop es ++ [.end_]) = some st ∧ st.out = denote sidx (printedTerms es) (fun _ => 0) := by
+  rw [Text.strLoop_eq_printToks]; exact Text.parse_print sidx _
+
+/-- non-vacuity: `3 - (2^e1)` on a layout whose slot 0 is the scalar -/
+example : strLoop [⟨0, 0, 3⟩, ⟨1, 1, -2⟩, ⟨1, 2, 0⟩] = [.coeff 3, .space, .sign (-1), .space, .lparen, .coeff 2, .wedge, .blade 1, .rparen] := by decide
+
 end C19
